@@ -151,6 +151,7 @@ LayoutId(l) == DirKey(l.cwd) \o "." \o l.mode \o "." \o DirKey(l.cfgdir) \o "." 
                (IF l.decoy = L!NoDecoy THEN "n" ELSE DirKey(l.decoy))
 
 \* layouts where the working directory is the config directory (no known deviation)
+\* (kept although no deviation is known any more: the reference-graph families need only a few layouts)
 HomeLayouts == {l \in L!AllLayouts : l.cfgdir = l.cwd /\ l.decoy = L!NoDecoy /\ l.mode \in {"search_yml", "flag_abs"}
                                      /\ l.cwd \in {<<"w">>, <<"w", "a">>}}
 
@@ -161,8 +162,9 @@ MkCase(l, d, n, sid, tmpl, vs) ==
    data |-> DocData(l, d, n, tmpl),
    impl |-> ImplData(l, d, n, tmpl),
    meta |-> [lid |-> LayoutId(l), cwd |-> L!Abs(l.cwd), mode |-> l.mode, cfgdir |-> L!Abs(l.cfgdir),
-             cfgname |-> L!CfgFileName(l.mode), param |-> L!ConfigParam(l),
-             decoy |-> IF l.decoy = L!NoDecoy THEN "" ELSE L!Abs(l.decoy),
+             cfgname |-> L!CfgFileName(l.mode), param |-> L!ConfigParam(l), envparam |-> L!EnvParam(l),
+             decoy |-> IF l.decoy = L!NoDecoy THEN "" ELSE L!Abs(l.decoy), decoyname |-> L!DecoyName(l.mode),
+             decoy_may_win |-> L!DecoyMayWin(l),
              iface |-> n, ifdir |-> L!Abs(d), pkgpath |-> L!PkgPath(d), pkgname |-> L!PkgName(d),
              tmpl |-> tmpl, sid |-> sid, tag |-> sid \o IfKey(n) \o DirKey(d),
              exported |-> Exported[n],
@@ -234,11 +236,11 @@ SpecTinyQuick == InitTinyQuick /\ [][Next]_vars /\ WF_vars(Next)
 -----------------------------------------------------------------------------
 (* Layout.tla's own claims, evaluated over every layout (ASSUME = checked once by TLC at start-up) *)
 ASSUME \A l \in L!AllLayouts : L!RealConfigIsUsed(l)
-ASSUME \A l \in L!AllLayouts : L!ConfigDirDeviatesOnlyWhenFoundAbove(l)
-ASSUME \A l \in L!AllLayouts : \A d \in L!ModDirs : L!IfaceDirRelDeviatesOnlyWhenCwdIsNotConfigDir(l, d)
-\* vacuity: both D14 classes and their complements are inhabited
-ASSUME \E l \in L!AllLayouts : L!DevConfigDir(l)
-ASSUME \E l \in L!AllLayouts : ~L!DevConfigDir(l) /\ l.cwd # l.cfgdir
-ASSUME \E l \in L!AllLayouts : \E d \in L!ModDirs : L!DevIfaceDirRel(l, d)
+ASSUME \A l \in L!AllLayouts : L!NoKnownDeviation(l)
+\* vacuity: config found above the cwd, given explicitly elsewhere, undocumented relative dir, both names, flag+env
+ASSUME \E l \in L!AllLayouts : l.mode \in L!SearchModes /\ l.cfgdir # l.cwd
+ASSUME \E l \in L!AllLayouts : l.mode \in L!ExplicitModes /\ l.cfgdir # l.cwd
 ASSUME \E l \in L!AllLayouts : \E d \in L!ModDirs : L!DocIfaceDirRel(l, d) = L!UNSPEC
+ASSUME \E l \in L!AllLayouts : L!DecoyMayWin(l)
+ASSUME \E l \in L!AllLayouts : l.mode \in L!FlagEnvModes /\ l.decoy = l.cwd /\ l.cfgdir # l.cwd
 =============================================================================
